@@ -101,6 +101,27 @@ func (e *Exec) callRepo(f *ssa.Function, args []Term, x *ssa.Call) val {
 			e.obligePre(f, t, x)
 		}
 	}
+	if ct != nil && !e.noObl && e.parent == nil && f == e.fn {
+		// a recursive call: the declared measure is non-negative and smaller for the arguments
+		for _, cl := range ct.clauses {
+			if cl.kind != "decreases" {
+				continue
+			}
+			e.g.libDep("splitnosep")
+			callee := e.g.calleeEnv(f, args)
+			mArgs := callee.tr(cl.expr)
+			caller := e.g.calleeEnv(f, e.root().params)
+			mParams := caller.tr(cl.expr)
+			if callee.err != "" || caller.err != "" {
+				e.unsupported("decreases of " + f.Name() + ": " + callee.err + caller.err)
+				return resultVals(res)
+			}
+			e.nRec++
+			r := e.root()
+			r.obls = append(r.obls, Obligation{Name: fmt.Sprintf("%s.recursion.decreases#%d", e.w.fnKey(e.fn), e.nRec), Kind: "inv", Cond: e.reach[e.curBlock],
+				Goal: and("(<= 0 "+mParams.t+")", "(< "+mArgs.t+" "+mParams.t+")"), Pos: x.Pos(), Fn: e.w.fnKey(e.fn)})
+		}
+	}
 	if ct != nil && !e.noObl && e.parent == nil {
 		env := e.g.calleeEnv(f, args)
 		for _, cl := range ct.clauses {
@@ -122,8 +143,8 @@ func (e *Exec) callRepo(f *ssa.Function, args []Term, x *ssa.Call) val {
 	if ct != nil && e.parent == nil {
 		env := e.g.calleeEnv(f, args)
 		for _, cl := range ct.clauses {
-			if cl.kind != "ensures" || !e.g.tagAllowed(cl.tags) || e.w.clauseIsFinding(f, cl, cl.ord) {
-				continue
+			if cl.kind != "ensures" || !e.g.tagAllowed(cl.tags) || e.w.clauseIsFinding(f, cl, cl.ord) || len(cl.using) > 0 {
+				continue // (a clause that needs invariant groups is a heavy quantified fact: not handed to callers)
 			}
 			env.instAt = e.root().goalSk
 			t := env.tr(cl.expr)
@@ -295,6 +316,9 @@ func (g *Gen) calleeAxioms(f *ssa.Function) {
 			}
 			if cl.kind == "ensures" && g.w.clauseIsFinding(f, cl, cl.ord) {
 				continue // a recorded finding is never used as a premise
+			}
+			if len(cl.using) > 0 {
+				continue // heavy quantified clause (proved with invariant groups): not a premise for callers
 			}
 			// a quantified postcondition is also instantiated at the goal constants of the function being verified
 			env.instAt = g.goalSk
